@@ -30,8 +30,7 @@ def _create_merge_candidates(merge_expr: exp.Merge) -> exp.Expression:
 
     source = merge_expr.args.get("using")
     assert isinstance(source, exp.Expression)
-    source_id = (alias := source.args.get("alias")) and alias.this if isinstance(source, exp.Subquery) else source.this
-    assert isinstance(source_id, exp.Identifier)
+    source_id = _source_id(source)
 
     join_expr = merge_expr.args.get("on")
     assert isinstance(join_expr, exp.Binary)
@@ -104,6 +103,13 @@ def _create_merge_candidates(merge_expr: exp.Merge) -> exp.Expression:
     return sqlglot.parse_one(sql)
 
 
+def _source_id(source: exp.Expression) -> exp.Identifier:
+    """The name the statement's expressions use for the source: its alias, else the table name without qualifiers."""
+    source_id = alias.this if (alias := source.args.get("alias")) else source.this
+    assert isinstance(source_id, exp.Identifier)
+    return source_id
+
+
 def _mutations(merge_expr: exp.Merge) -> list[exp.Expression]:
     """
     Given a merge statement, produce a list of delete, update and insert statements that use the
@@ -111,7 +117,7 @@ def _mutations(merge_expr: exp.Merge) -> list[exp.Expression]:
     """
     target_tbl = merge_expr.this
     source = merge_expr.args.get("using")
-    source_tbl = source.alias if isinstance(source, exp.Subquery) else source
+    source_tbl = _source_id(source)
     join_expr = merge_expr.args.get("on")
 
     statements: list[exp.Expression] = []
